@@ -903,9 +903,12 @@ fn run_tags_scaled(ts: &TagScenario, scale: u32) -> Result<Vec<BcastObs>, String
     // connection yet, later rounds on cached ones), then once more the empty
     // set with one node down
     let down_node = ts.assign.iter().map(|m| *m as usize).sum::<usize>() % TAG_NODES;
-    let mut rounds: Vec<(u8, Option<usize>)> = (0..=full).map(|q| (q, None)).collect();
-    rounds.push((0, Some(down_node)));
-    for (q, down) in rounds {
+    let mut rounds: Vec<(u8, Option<usize>, bool)> = (0..=full).map(|q| (q, None, false)).collect();
+    // the same requested sets spelled differently: every tag twice, the second time in reverse order
+    // (the REQUESTED TAGS are the same set, so exactly the same nodes are addressed)
+    rounds.extend((1..=full).map(|q| (q, None, true)));
+    rounds.push((0, Some(down_node), false));
+    for (q, down, respelled) in rounds {
         call += 1;
         if let Some(d) = down {
             nodes[d].sh_push(vec![if ts.silent { Out::Silent } else { Out::Refused }; TAG_MAX_ATTEMPTS]);
@@ -913,7 +916,13 @@ fn run_tags_scaled(ts: &TagScenario, scale: u32) -> Result<Vec<BcastObs>, String
         for n in &nodes {
             n.begin_call(call)?;
         }
-        let results = driver.broadcast(&mask_tags(q), call);
+        let request: Vec<&'static str> = if respelled {
+            let t = mask_tags(q);
+            t.iter().copied().chain(t.iter().rev().copied()).collect()
+        } else {
+            mask_tags(q)
+        };
+        let results = driver.broadcast(&request, call);
         let hung = matches!(results, Err(Res::Hang));
         let mut attempts = Vec::new();
         let mut expected = BTreeMap::new();
